@@ -12,6 +12,7 @@ import (
 	"fmt"
 	"os"
 	"path/filepath"
+	"sort"
 	"sync"
 	"testing"
 
@@ -180,6 +181,7 @@ func TestC17(t *testing.T) {
 	check(t, "workloads", 120, 300, func(rt *rapid.T) {
 		var w c17Workload
 		var mk func(rt *rapid.T) gonnx.Tensors
+		var opClasses []string
 		weighted := true
 		if rapid.IntRange(0, 2).Draw(rt, "sample") == 0 {
 			sms := sampleModels()
@@ -197,10 +199,16 @@ func TestC17(t *testing.T) {
 				return sm.feed(rt, rapid.IntRange(1, 3).Draw(rt, "N"), rapid.IntRange(1, 3).Draw(rt, "seq"))
 			}
 		} else {
-			gg := genGraph(rt, ggOpts{maxNodes: 6, aliasRoutes: true, allOutputs: rapid.Bool().Draw(rt, "allOutputs")})
+			gg := genGraph(rt, ggOpts{maxNodes: 6, aliasRoutes: rapid.Bool().Draw(rt, "aliasRoutes"), weightOps: true, allOutputs: rapid.Bool().Draw(rt, "allOutputs")})
 			w.Desc = gg.String()
 			w.Model = base64.StdEncoding.EncodeToString(marshalModel(gg.model(rt)))
 			weighted = gg.weighted
+			for f := range gg.feats {
+				if len(f) > 3 && f[:3] == "op-" || f == "gemm-transA-weight" || f == "conv-bias-initializer" || f == "initial-state-initializer" || f == "constant" {
+					opClasses = append(opClasses, f)
+				}
+			}
+			sort.Strings(opClasses)
 			mk = func(rt *rapid.T) gonnx.Tensors { return gg.feed(rt, gg.batchN) }
 		}
 		G := rapid.SampledFrom([]int{2, 2, 3, 4, 4, 8, 8, 16}).Draw(rt, "goroutines")
@@ -223,8 +231,8 @@ func TestC17(t *testing.T) {
 			b, _ := json.Marshal(w)
 			_ = os.WriteFile(filepath.Join(failDir, "C17-last-workload.json"), b, 0o644)
 		}
-		ev.Case("workloads", fmt.Sprintf("%s G=%d loaders=%d #%x", w.Desc, G, w.Loaders, hash64(fmt.Sprint(w.Feeds))), multi >= 2 && weighted,
-			fmt.Sprintf("G=%d", G), fmt.Sprintf("loaders=%d", w.Loaders))
+		cls := append([]string{fmt.Sprintf("G=%d", G), fmt.Sprintf("loaders=%d", w.Loaders)}, opClasses...)
+		ev.Case("workloads", fmt.Sprintf("%s G=%d loaders=%d #%x", w.Desc, G, w.Loaders, hash64(fmt.Sprint(w.Feeds))), multi >= 2 && weighted, cls...)
 		if v := runWorkload(w); v != "" {
 			rt.Fatalf("C17 violated by workload %s (G=%d): %s", w.Desc, G, v)
 		}
